@@ -27,7 +27,7 @@ theorem alookup_aset_ne {α : Type} (k k' : Nat) (v : α) (l : List (Nat × α))
       have : ¬ k2 = k' := fun e => h e.symm
       simp [aset, alookup, this]
     · by_cases h3 : k2 = k'
-      · simp [aset, alookup, h2, h3]
+      · subst h3; simp [aset, alookup, h2]
       · simp [aset, alookup, h2, h3, ih]
 
 theorem alookup_aerase_same {α : Type} (k : Nat) (l : List (Nat × α)) : alookup k (aerase k l) = none := by
@@ -50,7 +50,7 @@ theorem alookup_aerase_ne {α : Type} (k k' : Nat) (l : List (Nat × α)) (h : k
       have : ¬ k2 = k' := fun e => h e.symm
       simp [aerase, List.filter_cons, alookup, this] at ih ⊢; exact ih
     · by_cases h3 : k2 = k'
-      · simp [aerase, List.filter_cons, h2, alookup, h3]
+      · subst h3; simp [aerase, List.filter_cons, h2, alookup]
       · simp [aerase, List.filter_cons, h2, alookup, h3] at ih ⊢; exact ih
 
 theorem alookup_append {α : Type} (k : Nat) (l1 l2 : List (Nat × α)) :
@@ -167,15 +167,22 @@ theorem held_sendData1 (c : Conn) (s sid : Nat) (d : Bytes) (fin : Bool) :
     · subst h; simp [chunkBytes_append, chunkBytes]
     · simp [h]
 
+theorem mfs_rawSend (c : Conn) (s : Nat) (d : Bytes) (fin : Bool) : (c.rawSend s d fin).mfs = c.mfs := by
+  unfold Conn.rawSend; simp [mfs_updS]
+
 theorem mfs_sendData1 (c : Conn) (s : Nat) (d : Bytes) (fin : Bool) : (c.sendData1 s d fin).mfs = c.mfs := by
-  unfold Conn.sendData1 Conn.appendBuf Conn.rawSend
-  split
-  · rfl
-  · split
-    · simp [mfs_updS]
-    · split
-      · simp [mfs_updS]
-      · rfl
+  unfold Conn.sendData1
+  by_cases hb : (c.buf s).isEmpty = true
+  · simp only [hb, Bool.not_true, Bool.false_eq_true, if_false]
+    by_cases h1 : ((d.length : Int) ≤ c.localWin s)
+    · simp only [h1, if_true]; exact mfs_rawSend c s d fin
+    · simp only [h1, if_false]
+      by_cases h2 : c.localWin s > 0
+      · simp only [h2, if_true]
+        show (c.rawSend s _ false).mfs = c.mfs
+        exact mfs_rawSend c s _ false
+      · simp only [h2, if_false]; rfl
+  · simp only [hb, Bool.not_false, if_true]; rfl
 
 theorem held_sendPieces (f : Nat) (c : Conn) (s sid : Nat) (d : Bytes) (fin : Bool)
     (hm : 0 < c.mfs) (hf : d.length < f) :
